@@ -63,6 +63,13 @@ def generate(seed, tier, enlarged=False):
             'schema': {'$node': {'out': False, 'c': [['pa', {'$node': {'out': False, 'c': [['x', var(1)], ['y', var(1)]]}}]]}},
             'topo': [['pa', {'$dict': {'path': None, 'c': [['x', {'$path': tgt}], ['y', {'$path': tgt}]]}}]]}]}
     cases = [collide([], ['z']), collide(['c1'], ['..', 'z']), collide([], ['sa', 'z'])] + cases
+    # corpus (F22): an output-only port wired through a dictionary (with and without '_path')
+    for tp in ({'$dict': {'path': ['sa'], 'c': [['x', {'$path': ['z']}]]}},
+               {'$dict': {'path': None, 'c': [['x', {'$path': ['sa', 'z']}], ['y', {'$path': ['sb', 'y']}]]}}):
+        cases.insert(3, {'kind': 'apply', 'init': {}, 'i': 0, 'upd': {'pa': {'x': 10, 'y': 20}}, 'procs': [{
+            'parent': ['c1'], 'name': 'p0',
+            'schema': {'$node': {'out': False, 'c': [['pa', {'$node': {'out': True, 'c': [['x', var(1)], ['y', var(2)]]}}]]}},
+            'topo': [['pa', tp]]}]})
     # glob ports whose topology carries a '*' entry (oracle only: no '*' entries in the model's topologies)
     from harness import globtopo
     cases += [globtopo.gen_case(rng) for _ in range(n // 5)]
